@@ -259,13 +259,58 @@ fn explore(ctx: &mut Ctx) {
     if ctx.too_many() {
         return;
     }
+    // near-miss families beyond the exhaustive bound: a copy of the first k bytes of the needle directly
+    // followed (forward) / preceded (reverse) by a full occurrence, for every k, needles up to 24 bytes
+    let shapes: [&[u8]; 6] = [b"abcdefghijklmnopqrstuvwx", b"aaaaaaaaaaaaaaaaaaaaaaab", b"abababababababababababac", b"abcabcabcabcabcabcabcabd", b"https://example.org/path", b"aabaabaabaabaabaabaabaac"];
+    for shape in shapes {
+        for len in 1..=shape.len() {
+            let needle = &shape[..len];
+            for k in 0..=len {
+                for pad in [&b""[..], b"z", b"a"] {
+                    let mut fwd: Vec<u8> = pad.to_vec();
+                    fwd.extend_from_slice(&needle[..k]);
+                    fwd.extend_from_slice(needle);
+                    fwd.extend_from_slice(pad);
+                    eval(ctx, &fwd, needle);
+                    let mut bwd: Vec<u8> = pad.to_vec();
+                    bwd.extend_from_slice(needle);
+                    bwd.extend_from_slice(&needle[len - k..]);
+                    bwd.extend_from_slice(pad);
+                    eval(ctx, &bwd, needle);
+                    // the near miss alone (no occurrence)
+                    let mut miss: Vec<u8> = needle[..k].to_vec();
+                    miss.extend_from_slice(pad);
+                    miss.extend_from_slice(&needle[..k]);
+                    eval(ctx, &miss, needle);
+                }
+            }
+        }
+        if ctx.too_many() {
+            return;
+        }
+    }
+    // long needles with exactly one differing byte in the haystack copy (absent), next to a real copy
+    let long: &[u8] = b"0123456789abcdefghijklmnopqrstuvwxyzABCDEFGHIJKL";
+    for len in 1..=long.len() {
+        let needle = &long[..len];
+        for j in 0..len {
+            let mut wrong = needle.to_vec();
+            wrong[j] ^= 0x20;
+            eval(ctx, &wrong, needle);
+            let mut both = wrong.clone();
+            both.extend_from_slice(needle);
+            both.extend_from_slice(&wrong);
+            eval(ctx, &both, needle);
+        }
+    }
+    ctx.exhaustive_part("near-miss families: 6 needle shapes x every prefix length 1..=24 x every partial-match length k x 3 paddings, forward and mirrored");
     // random longer
     let n = ctx.by_tier(150_000, 3_000_000);
-    let sym = (2u8..=4).prop_flat_map(|k| {
+    let sym = (2u8..=8).prop_flat_map(|k| {
         (
             proptest::collection::vec(0u8..k, 0..64),
-            proptest::collection::vec(0u8..k, 0..9),
-            proptest::collection::vec(0u8..k, 0..9),
+            proptest::collection::vec(0u8..k, 0..20),
+            proptest::collection::vec(0u8..k, 0..3),
             any::<bool>(),
         )
     });
@@ -279,14 +324,16 @@ fn explore(ctx: &mut Ctx) {
 
 /// random case: haystack = random symbols with the needle (or a near-miss prefix of it) planted
 pub fn fold_case((h, n, extra, plant): &(Vec<u8>, Vec<u8>, Vec<u8>, bool)) -> Case {
-    let m = |x: &u8| b"abcd"[*x as usize];
+    let m = |x: &u8| b"abcdefgh"[(*x % 8) as usize];
     let mut hay: Vec<u8> = h.iter().map(m).collect();
     let needle: Vec<u8> = n.iter().map(m).collect();
     if *plant && !needle.is_empty() {
-        // near miss then full match appended
-        hay.extend_from_slice(&needle[..needle.len() - 1]);
-        hay.extend(extra.iter().map(m));
+        // near miss (a prefix whose length comes from `extra`) then a full match appended, then a suffix near miss
+        let k = extra.first().map_or(needle.len() - 1, |x| (*x as usize * 7 + extra.len() * 3) % (needle.len() + 1));
+        hay.extend_from_slice(&needle[..k]);
         hay.extend_from_slice(&needle);
+        hay.extend_from_slice(&needle[needle.len() - k..]);
+        hay.extend(extra.iter().skip(1).map(m));
     }
     Case { hay, needle }
 }
